@@ -6,6 +6,7 @@ use monitor::*;
 use std::time::Instant;
 
 mod alloc;
+mod api;
 mod c09;
 mod c10;
 mod c18;
@@ -66,6 +67,20 @@ fn main() {
     };
     args.only = only;
     let items: Vec<Item> = if slice { items.into_iter().filter(|i| SLICE_ITEMS.contains(&i.name.as_str())).collect() } else { items };
-    let rep = run_items(&args, items);
+    // every item starts the API-spelling sequence afresh, and from a point that depends on the seed
+    let seed = args.seed;
+    let items: Vec<Item> = items
+        .into_iter()
+        .map(|it| {
+            let Item { name, run } = it;
+            let salt = mix(seed, digest(&name.as_str()));
+            Item::new(name, move |rep: &mut Report, rng: &mut Rng, a: &Args| {
+                api::reset(salt);
+                run(rep, rng, a)
+            })
+        })
+        .collect();
+    let mut rep = run_items(&args, items);
+    rep.note(api::summary());
     finish(&args, "mon_ser", rule, rep, t0)
 }
